@@ -2006,6 +2006,13 @@ class ReferenceManager:
             assert all(ref is not r for r in refs)
             refs.append(ref)
 
+    def register_ref(self, ref):
+        """Track a reference created outside new_ref"""
+        if not isinstance(ref.interface, Interface):
+            refs = self._valid_to_refs.setdefault(id(ref.interface), [])
+            if all(ref is not r for r in refs):
+                refs.append(ref)
+
     def del_ref(self, impl, name):
 
         refdict = impl.own_refs
